@@ -181,12 +181,25 @@ func init() {
 		"runtime.GC":           nop,
 		"runtime.Gosched":      nop,
 
+		// flag: definitions return a cell holding the default value
+		"flag.Bool":     flagVar,
+		"flag.String":   flagVar,
+		"flag.Int":      flagVar,
+		"flag.Duration": flagVar,
+		"flag.Parse":    nop,
+
 		"errors.Is": errorsIs,
 		"errors.As": errorsAs,
 	}
 	delete(intrinsics, "internal/race.Enabled")
 	registerFmt()
 	registerAtomic()
+}
+
+func flagVar(ex *Exec, fr *frame, a []Value) Value {
+	cell := new(Value)
+	*cell = a[1]
+	return cell
 }
 
 func nop(ex *Exec, fr *frame, a []Value) Value { return nil }
